@@ -185,6 +185,16 @@ def class_info(cls):
                 decls=decls, svcs=svcs)
 
 
+def probe_class(probes):
+    """a terminal class made of TLC-generated declarations: [(index, subindex, override record)]"""
+    from ebpfcat.ebpfcat import EBPFTerminal, ProcessDesc
+    attrs = {}
+    for k, (idx, sub, ov) in enumerate(probes):
+        size = None if ov["k"] == "none" else int(ov["n"]) if ov["k"] == "bit" else "".join(chr(c) for c in ov["c"])
+        attrs[f"p{k:04d}"] = ProcessDesc(idx, sub, size)
+    return type("Probe", (EBPFTerminal,), attrs)
+
+
 def bundled_classes():
     """the terminal classes of ebpfcat.terminals that describe a terminal (not Skip, not the abstract
     AerotechBase)"""
@@ -254,6 +264,9 @@ def run_segment(items, budget=None):
                  sizes=dict(out=-1, inp=-1), smregs=[], assigned=dict(out=dict(n=-1, pdos=[]), inp=dict(n=-1, pdos=[])))
             for inf in infos]
     for it, r in zip(items, runs):
+        r["probe"] = bool(it.get("probe"))
+        if r["probe"]:
+            r["cls"]["generic"] = True          # a probe class is made for the device it runs on
         for key, attr in (("outp", "out_pdos"), ("inp", "in_pdos")):
             if it.get(attr) is not None:
                 r[key] = dict(set=True, pdos=list(it[attr]))
